@@ -80,6 +80,10 @@ type MorassPlan struct {
 	// Twin: the history runs twice in one process, on two sorters whose
 	// element types are distinct but print alike (props.RecKey in two packages).
 	Twin bool `json:"twin,omitempty"`
+	// Fresh: use an element type this process has not given to a sorter yet
+	// (falls back to the plain struct type when the supply is exhausted, so a
+	// replay in a fresh process sees a fresh type again).
+	Fresh bool `json:"fresh,omitempty"`
 }
 
 const morassWriterSite = "morass.go:"
@@ -178,6 +182,14 @@ func morassClient(sim *simrt.Sim, pl *MorassPlan, obs *morassObs, variant int) {
 	if pl.Reg {
 		proto = regKey{}
 	}
+	var fresh *freshType
+	if variant == 0 && pl.Fresh && nextFresh < len(freshTypes) {
+		fresh = &freshTypes[nextFresh]
+		nextFresh++
+		proto = fresh.proto
+		variant = 3
+		sim.Probe("element_type_new_to_this_process")
+	}
 	switch variant {
 	case 1:
 		proto = RecKey{}
@@ -212,7 +224,10 @@ func morassClient(sim *simrt.Sim, pl *MorassPlan, obs *morassObs, variant int) {
 			for i, k := range cy.Keys {
 				serial++
 				var e morass.LessInterface
-				if variant == 1 {
+				if variant == 3 {
+					e = fresh.mk(k, serial)
+					remaining[mvalue{k, serial}]++
+				} else if variant == 1 {
 					e = RecKey{Key: k, Serial: serial}
 					remaining[mvalue{k, serial}]++
 				} else if variant == 2 {
@@ -287,6 +302,8 @@ func morassClient(sim *simrt.Sim, pl *MorassPlan, obs *morassObs, variant int) {
 				// one destination variable serves all pulls, as in a caller's
 				// read loop: Pull must overwrite whatever it holds
 				switch {
+				case variant == 3:
+					key, ser, perr = fresh.pull(m)
 				case variant == 1:
 					perr = m.Pull(&dstRK)
 					key, ser = dstRK.Key, dstRK.Serial
@@ -357,6 +374,8 @@ func morassClient(sim *simrt.Sim, pl *MorassPlan, obs *morassObs, variant int) {
 				// exhaustion must be reported as io.EOF
 				var perr error
 				switch {
+				case variant == 3:
+					_, _, perr = fresh.pull(m)
 				case variant == 1:
 					perr = m.Pull(&dstRK)
 				case variant == 2:
